@@ -38,6 +38,7 @@ struct Normaliser {
 // canonical representative for EXACT comparison (bit-preserving rewrites only)
 struct Canon {
   std::unordered_map<int, int> memo;
+  bool divSelfIsOne = false; // x/x == 1: valid wherever the quotient is defined (finite non-zero x)
   int canon(int t);
 };
 
